@@ -200,168 +200,172 @@ pub fn __as_f64<T: ToF64>(x: T) -> (r: f64) ensures r == x.to_f64_spec() { x.__t
 // R13: identity on f64 (see rule R13 of the extractor)
 pub fn __idf(x: f64) -> (r: f64) ensures r == x { x }
 
-// ---- extracted from src/solve/data.rs: struct RegretParams ----
-#[derive(Clone, Copy)]
-pub struct RegretParams {
-    /// The discount factor for positive cumulative regret or `α`.
-    ///
-    /// Positive cumulative regrets are discounted by `tᵅ/(tᵅ + 1)` every iteration `t`. Setting
-    /// alpha closer to infinity implies no discounting, while setting it at negative infinity
-    /// means imediate forgetting. Note that any non-positive value is probably not desired.
-    pub pos_regret: f64,
-    /// The discount factor for negative cumulative regret or `β`
-    ///
-    /// Negative cumulative regrets are discounted by `tᵝ/(tᵝ + 1)` every iteration `t`. The
-    /// values are the same as for positive regrets. Setting this to a non-positive value will
-    /// prevent the cumulative regret of negative regret actions from approaching negative
-    /// infinity, which can make pruning negative regret actions impossible.
-    pub neg_regret: f64,
-    /// The average strategy discount factor `γ`
-    ///
-    /// The average strategy is discounted by `(ᵗ⁄ₜ₊₁)ᵞ` every iteration t, which is equivalent to
-    /// weighting each strategy update by `tᵞ`.
-    pub strat: f64,
-    /// The scale for picking a strategy when all regrets are negative
-    ///
-    /// If all actions have negative regret, the chosen strategy can be anything. We use the
-    /// softmax of the regrets times this weight. Setting it to infinity is the same as always
-    /// playing the strategy with the highest regret. Zero is equivalent to playing each action
-    /// uniformly. No other values are recommend, but interpolate between those extremes.
-    pub no_positive: f64,
+// ---- extracted from src/error.rs: enum StratError ----
+#[derive(PartialEq, Eq)]
+pub enum StratError {
+    /// Returned when the game doesn't have a specific infoset
+    InvalidInfoset,
+    /// Returned when the game doesn't have an action for an infoset
+    InvalidAction,
+    /// Returned when a probability for an action is negative, nan, or infinite
+    InvalidProbability,
+    /// Returned when no action in an infoset was assigned positive probability
+    UninitializedInfoset,
 }
 
-// R5: the four update helpers of RegretParams seen from their callers: each is a PURE function of its
-// arguments with a frame (regret_match and cum_regret do not modify the regrets).  These contracts
-// are discharged per helper by Kani harnesses on the real bodies (c08_regret_match_*,
-// c08_discount_cum_regret, c08_discount_average_strat, c02_cum_regret_formula: formula + frame,
-// bounded to slices of length <= 3), so they are cited at the bounded level, assumed beyond it.
-pub uninterp spec fn rm_spec(p: RegretParams, cum_reg: Seq<f64>) -> Seq<f64>;
-pub uninterp spec fn dcr_spec(p: RegretParams, it: u64, cum_reg: Seq<f64>) -> Seq<f64>;
-pub uninterp spec fn das_spec(p: RegretParams, it: u64, avg: Seq<f64>) -> Seq<f64>;
-pub uninterp spec fn cr_spec(p: RegretParams, it: u64, cum_reg: Seq<f64>) -> f64;
-impl RegretParams {
+// R5 / TYPE-SUBST: std::borrow::Borrow and std::collections::HashMap as far as the validation
+// kernel of strat_into_box uses them, with assumed contracts restating their documentation
+// (Borrow: "the borrowed value"; HashMap::get: the value stored under an equal key, if any)
+pub trait Borrow<T> {
+    spec fn bview(&self) -> T;
+    fn borrow(&self) -> (r: &T)
+        ensures *r == self.bview();
+}
+#[verifier::external_body]
+#[verifier::reject_recursive_types(K)]
+#[verifier::reject_recursive_types(V)]
+pub struct HashMap<K, V> { _p: core::marker::PhantomData<(K, V)> }
+impl<K, V> HashMap<K, V> {
+    pub uninterp spec fn view(&self) -> Map<K, V>;
     #[verifier::external_body]
-    pub fn regret_match(&self, cum_reg: &mut [f64], strat: &mut [f64])
-        ensures final(strat)@ == rm_spec(*self, old(cum_reg)@), final(cum_reg)@ == old(cum_reg)@,
+    pub fn insert(&mut self, k: K, v: V) -> (r: Option<V>)
+        ensures final(self)@ == old(self)@.insert(k, v),
     { unimplemented!() }
     #[verifier::external_body]
-    pub fn discount_cum_regret(&self, it: u64, cum_reg: &mut [f64])
-        ensures final(cum_reg)@ == dcr_spec(*self, it, old(cum_reg)@),
-    { unimplemented!() }
-    #[verifier::external_body]
-    pub fn discount_average_strat(&self, it: u64, avg_strat: &mut [f64])
-        ensures final(avg_strat)@ == das_spec(*self, it, old(avg_strat)@),
-    { unimplemented!() }
-    #[verifier::external_body]
-    pub fn cum_regret(&self, it: u64, cum_reg: &mut [f64]) -> (r: f64)
-        ensures r == cr_spec(*self, it, old(cum_reg)@), final(cum_reg)@ == old(cum_reg)@,
+    pub fn get(&self, k: &K) -> (r: Option<&V>)
+        ensures match r { Some(v) => self@.contains_key(*k) && *v == self@[*k], None => !self@.contains_key(*k) },
     { unimplemented!() }
 }
+// core: `impl PartialEq<&mut B> for &A where A: PartialEq<B>` compares the pointees (twice here: && vs &mut &)
+pub axiom fn ax_ref_eq<A: PartialEq>()
+    ensures <&&A as PartialEqSpec<&mut &A>>::obeys_eq_spec(),
+        forall|a: &&A, b: &mut &A| #[trigger] <&&A as PartialEqSpec<&mut &A>>::eq_spec(&a, &b) == <A as PartialEqSpec<A>>::eq_spec(&**a, &**b);
+pub open spec fn a_eq<A: PartialEq>(x: A, y: &A) -> bool { <A as PartialEqSpec<A>>::eq_spec(&x, y) }
+// user key types: a clone is the same abstract key (Clone/Eq/Hash coherence, assumed)
+pub axiom fn ax_clone_is_equal<A: Clone>() ensures forall|a: &A, b: A| #[trigger] call_ensures(A::clone, (a,), b) ==> *a == b;
+// scanning path: the infoset's action list and the position of an action in it (the
+// `iter().enumerate().find(|(_, act)| act == &action)` chain: first position holding an equal action)
+pub struct InfoActions<A> { pub actions: Box<[A]> }
+#[verifier::external_body]
+pub fn __abs_position<A>(actions: &Box<[A]>, action: &A) -> (r: Option<usize>)
+    ensures match r { Some(i) => i < actions@.len() && actions@[i as int] == *action, None => !actions@.contains(*action) },
+{ unimplemented!() }
+// a weight the import accepts: >= 0 (so not NaN) and finite
+pub open spec fn legal(p: f64) -> bool { fge(p, 0.0f64) && fisfinite(p) }
 
-// ---- extracted from src/solve/data.rs: struct RegretInfoset ----
-pub struct RegretInfoset {
-    pub cum_regret: Box<[f64]>,
-    pub cum_strat: Box<[f64]>,
-    pub strat: Box<[f64]>,
+impl<K, V> HashMap<K, V> {
+    // HashMap::get_mut: a mutable reference to the value stored under an equal key, if any
+    #[verifier::external_body]
+    pub fn get_mut(&mut self, k: &K) -> (r: Option<&mut V>)
+        ensures match r {
+            Some(v) => old(self)@.contains_key(*k) && *v == old(self)@[*k] && final(self)@ == old(self)@.insert(*k, *final(v)),
+            None => !old(self)@.contains_key(*k) && final(self)@ == old(self)@,
+        },
+    { unimplemented!() }
 }
+// the two per-(action, weight) loops, each an uninterpreted function of what it is given; their bodies are
+// under contract in c14_hash_validate (strat_into_box__multi_entry / __single_entry)
+// ---- scanning path: first position in the infoset table / the single-action table holding an equal
+// infoset (the `iter().enumerate().find(..)` chains, std code)
+pub struct InfoRow<I, A> { pub infoset: I, pub actions: Box<[A]> }
+pub open spec fn first_info<I, A>(infos: Seq<InfoRow<I, A>>, key: I, i: int) -> bool {
+    0 <= i < infos.len() && infos[i].infoset == key && forall|j: int| 0 <= j < i ==> (#[trigger] infos[j]).infoset != key
+}
+pub open spec fn first_single<I, A>(singles: Seq<(I, A)>, key: I, i: int) -> bool {
+    0 <= i < singles.len() && singles[i].0 == key && forall|j: int| 0 <= j < i ==> (#[trigger] singles[j]).0 != key
+}
+#[verifier::external_body]
+pub fn __abs_find_info<'a, I, A>(infos: &'a [InfoRow<I, A>], infoset: &I) -> (r: Option<(usize, &'a InfoRow<I, A>)>)
+    ensures match r { Some(p) => first_info(infos@, *infoset, p.0 as int) && *p.1 == infos@[p.0 as int], None => forall|j: int| 0 <= j < infos@.len() ==> (#[trigger] infos@[j]).infoset != *infoset },
+{ unimplemented!() }
+#[verifier::external_body]
+pub fn __abs_find_single<'a, I, A>(singles: &'a [(I, A)], infoset: &I) -> (r: Option<(usize, &'a (I, A))>)
+    ensures match r { Some(p) => first_single(singles@, *infoset, p.0 as int) && *p.1 == singles@[p.0 as int], None => forall|j: int| 0 <= j < singles@.len() ==> (#[trigger] singles@[j]).0 != *infoset },
+{ unimplemented!() }
+pub uninterp spec fn scan_multi_spec<ACTS, I, A>(actions: ACTS, info: InfoRow<I, A>, info_ind: usize, dense: Seq<f64>) -> Result<Seq<f64>, StratError>;
+pub uninterp spec fn scan_single_spec<ACTS, A>(actions: ACTS, act: A, seen: bool) -> Result<bool, StratError>;
+#[verifier::external_body]
+pub fn __scan_entries_multi<ACTS, I, A>(actions: ACTS, info: &InfoRow<I, A>, info_ind: usize, dense: &mut Box<[f64]>) -> (r: Result<(), StratError>)
+    ensures match scan_multi_spec(actions, *info, info_ind, old(dense)@) { Ok(d) => r is Ok && final(dense)@ == d, Err(e) => r == Err::<(), StratError>(e) },
+{ unimplemented!() }
+#[verifier::external_body]
+pub fn __scan_entries_single<ACTS, A>(actions: ACTS, act: &A, ind: usize, seen_singles: &mut Box<[bool]>) -> (r: Result<(), StratError>)
+    requires ind < old(seen_singles)@.len(),
+    ensures match scan_single_spec(actions, *act, old(seen_singles)@[ind as int]) { Ok(s) => r is Ok && final(seen_singles)@ == old(seen_singles)@.update(ind as int, s), Err(e) => r == Err::<(), StratError>(e) },
+{ unimplemented!() }
+pub uninterp spec fn multi_spec<ACTS, A>(actions: ACTS, action_inds: Map<A, usize>, dense: Seq<f64>) -> Result<Seq<f64>, StratError>;
+pub uninterp spec fn single_spec<ACTS, A>(actions: ACTS, act: &A, seen: bool) -> Result<bool, StratError>;
+#[verifier::external_body]
+pub fn __entries_multi<ACTS, A>(actions: ACTS, action_inds: &HashMap<A, usize>, dense: &mut Box<[f64]>) -> (r: Result<(), StratError>)
+    ensures match multi_spec(actions, action_inds@, old(dense)@) { Ok(d) => r is Ok && final(dense)@ == d, Err(e) => r == Err::<(), StratError>(e) },
+{ unimplemented!() }
+#[verifier::external_body]
+pub fn __entries_single<ACTS, A>(actions: ACTS, act: &mut &A, seen: &mut bool) -> (r: Result<(), StratError>)
+    ensures *final(act) == *old(act),
+        match single_spec(actions, *old(act), *old(seen)) { Ok(s) => r is Ok && *final(seen) == s, Err(e) => r == Err::<(), StratError>(e) },
+{ unimplemented!() }
 
-pub trait PlayerRecurse {
-    fn update_cum_strat(&mut self, prob: f64);
-    fn advance(&mut self, it: u64, params: &RegretParams) -> f64;
-}
-pub struct Player { }
-pub struct Node { }
-pub trait ActiveInfo {
-    // callers pass the loop variable of `for it in 1..=max_iter`
-    fn advance<const FIRST: bool>(&mut self, it: u64, params: &RegretParams) -> f64
-        requires it >= 1;
-}
-
-// ---- extracted from src/solve/vanilla.rs: impl PlayerRecurse for RegretInfoset ----
-impl PlayerRecurse for RegretInfoset {
-fn advance(&mut self, it: u64, params: &RegretParams) -> (r: f64) 
+// ---- extracted from src/lib.rs: impl Game / fn strat_into_box ----
+pub fn strat_into_box__entry<'x, I, A, BI: Borrow<I>, ACTS>(binfoset: BI, actions: ACTS, inds: &HashMap<I, HashMap<A, usize>>, singles: &mut HashMap<I, (&'x A, bool)>, dense: &mut Box<[f64]>) -> (out: Result<(), StratError>)
     ensures
-        // textbook order: the next strategy is matched on the regrets BEFORE discounting ...
-        final(self).strat@ == rm_spec(*params, old(self).cum_regret@), // @ob C08.V.advance.match_before_discount
-        // ... then regrets and average strategy are discounted with the caller's iteration number ...
-        final(self).cum_regret@ == dcr_spec(*params, it, old(self).cum_regret@), // @ob C08.V.advance.discount_regrets
-        final(self).cum_strat@ == das_spec(*params, it, old(self).cum_strat@), // @ob C08.V.advance.discount_average
-        // ... and the reported bound is that of the regrets AFTER discounting, same iteration number
-        r == cr_spec(*params, it, final(self).cum_regret@), // @ob C02.V.advance.reports_bound
+        // an entry for a multi-action infoset is validated against THAT infoset's action table and written
+        // into the dense vector; the single-action table is not touched
+        inds@.contains_key(binfoset.bview()) ==> final(singles)@ == old(singles)@
+            && (match multi_spec(actions, inds@[binfoset.bview()]@, old(dense)@) { Ok(d) => out is Ok && final(dense)@ == d, Err(e) => out == Err::<(), StratError>(e) }), // @ob C14.V.hash_import.entry_dispatch
+        // otherwise an entry for a single-action infoset is validated against that infoset's only action,
+        // only its own `seen` mark may change, and the dense vector is not touched
+        !inds@.contains_key(binfoset.bview()) && old(singles)@.contains_key(binfoset.bview()) ==>
+            (match single_spec(actions, old(singles)@[binfoset.bview()].0, old(singles)@[binfoset.bview()].1) {
+                Ok(s) => out is Ok && final(dense)@ == old(dense)@ && final(singles)@ == old(singles)@.insert(binfoset.bview(), (old(singles)@[binfoset.bview()].0, s)),
+                Err(e) => out == Err::<(), StratError>(e),
+            }), // @ob C14.V.hash_import.entry_dispatch
+        // an infoset the game does not have is rejected
+        !inds@.contains_key(binfoset.bview()) && !old(singles)@.contains_key(binfoset.bview()) ==> out == Err::<(), StratError>(StratError::InvalidInfoset), // @ob C14.V.hash_import.rejects_unknown_infoset
 {
-        params.regret_match(&mut *self.cum_regret, &mut self.strat);
-        params.discount_cum_regret(it, &mut *self.cum_regret);
-        params.discount_average_strat(it, &mut self.cum_strat);
-        params.cum_regret(it, &mut *self.cum_regret)
-    }
+            let infoset = binfoset.borrow();
+            if let Some(action_inds) = inds.get(infoset) {
+                __entries_multi(actions, action_inds, dense)?;
+            } else if let Some((act, seen)) = singles.get_mut(infoset) {
+                __entries_single(actions, act, seen)?;
+            } else {
+                return Err(StratError::InvalidInfoset);
+            }
+        
+Ok(())
 }
 
-// R5: std::sync::Mutex as far as `advance` uses it: get_mut() on an exclusively borrowed mutex
-// returns the protected value (lock poisoning -- the Err case -- is not modelled: assumed Ok)
-#[derive(Debug)]
-pub struct PoisonError { }
-pub struct Mutex<T> { pub inner: T }
-impl<T> Mutex<T> {
-    #[verifier::external_body]
-    pub fn get_mut(&mut self) -> (r: Result<&mut T, PoisonError>)
-        ensures r is Ok, *(r->Ok_0) == old(self).inner, final(self).inner == *final(r->Ok_0),
-    { unimplemented!() }
-}
-pub trait MutexPlayerRecurse {
-    fn advance(&mut self, it: u64, params: &RegretParams) -> f64;
-}
-
-// ---- extracted from src/solve/vanilla.rs: struct MutexRegretInfoset ----
-pub struct MutexRegretInfoset {
-    pub cum_regret: Box<[f64]>,
-    pub cum_strat: Mutex<Box<[f64]>>,
-    pub strat: Box<[f64]>,
-}
-
-// ---- extracted from src/solve/vanilla.rs: impl MutexPlayerRecurse for MutexRegretInfoset ----
-impl MutexPlayerRecurse for MutexRegretInfoset {
-fn advance(&mut self, it: u64, params: &RegretParams) -> (r: f64) 
+// ---- extracted from src/lib.rs: impl Game / fn strat_into_box_slow ----
+pub fn strat_into_box_slow__entry<I, A, BI: Borrow<I>, ACTS>(binfoset: BI, actions: ACTS, infos: &[InfoRow<I, A>], action_inds: &Vec<usize>, singles: &[(I, A)], seen_singles: &mut Box<[bool]>, dense: &mut Box<[f64]>) -> (out: Result<(), StratError>)
+    requires
+        action_inds@.len() == infos@.len(), old(seen_singles)@.len() == singles@.len(),
     ensures
-        final(self).strat@ == rm_spec(*params, old(self).cum_regret@), // @ob C08.V.advance.match_before_discount
-        final(self).cum_regret@ == dcr_spec(*params, it, old(self).cum_regret@), // @ob C08.V.advance.discount_regrets
-        final(self).cum_strat.inner@ == das_spec(*params, it, old(self).cum_strat.inner@), // @ob C08.V.advance.discount_average
-        r == cr_spec(*params, it, final(self).cum_regret@), // @ob C02.V.advance.reports_bound
+        // the scanning importer dispatches an entry exactly like the hashing one: first the multi-action
+        // infosets (the entry is validated against THAT row and its offset), then the single-action ones
+        // (only that infoset's own mark may change), otherwise the infoset is rejected
+        forall|i: int| first_info(infos@, binfoset.bview(), i) ==> final(seen_singles)@ == old(seen_singles)@
+            && (match scan_multi_spec(actions, #[trigger] infos@[i], action_inds@[i], old(dense)@) { Ok(d) => out is Ok && final(dense)@ == d, Err(e) => out == Err::<(), StratError>(e) }), // @ob C14.V.scan_import.entry_dispatch
+        (forall|j: int| 0 <= j < infos@.len() ==> (#[trigger] infos@[j]).infoset != binfoset.bview()) ==>
+            forall|i: int| first_single(singles@, binfoset.bview(), i) ==>
+                (match scan_single_spec(actions, (#[trigger] singles@[i]).1, old(seen_singles)@[i]) {
+                    Ok(s) => out is Ok && final(dense)@ == old(dense)@ && final(seen_singles)@ == old(seen_singles)@.update(i, s),
+                    Err(e) => out == Err::<(), StratError>(e),
+                }), // @ob C14.V.scan_import.entry_dispatch
+        (forall|j: int| 0 <= j < infos@.len() ==> (#[trigger] infos@[j]).infoset != binfoset.bview())
+            && (forall|j: int| 0 <= j < singles@.len() ==> (#[trigger] singles@[j]).0 != binfoset.bview()) ==> out == Err::<(), StratError>(StratError::InvalidInfoset), // @ob C14.V.scan_import.rejects_unknown_infoset
 {
-        params.regret_match(&mut *self.cum_regret, &mut self.strat);
-        params.discount_cum_regret(it, &mut *self.cum_regret);
-        params.discount_average_strat(it, self.cum_strat.get_mut().unwrap());
-        params.cum_regret(it, &mut *self.cum_regret)
-    }
-}
-
-// ---- extracted from src/solve/external.rs: struct CachedInfoset ----
-pub struct CachedInfoset {
-    pub reg: RegretInfoset,
-    pub cached: usize,
-}
-
-// ---- extracted from src/solve/external.rs: impl ActiveInfo for CachedInfoset ----
-impl ActiveInfo for CachedInfoset {
-fn advance<const FIRST: bool>(&mut self, it: u64, params: &RegretParams) -> (r: f64) 
-    ensures
-        // textbook order: the next strategy is matched on the regrets BEFORE discounting ...
-        final(self).reg.strat@ == rm_spec(*params, old(self).reg.cum_regret@), // @ob C08.V.advance.match_before_discount
-        // ... then regrets and average strategy are discounted with the caller's iteration number ...
-        final(self).reg.cum_regret@ == dcr_spec(*params, it, old(self).reg.cum_regret@), // @ob C08.V.advance.discount_regrets
-        final(self).reg.cum_strat@ == das_spec(*params, (if FIRST { (it - 1) as u64 } else { it }), old(self).reg.cum_strat@), // @ob C08.V.advance.discount_average
-        // ... and the reported bound is that of the regrets AFTER discounting, same iteration number
-        r == cr_spec(*params, it, final(self).reg.cum_regret@), // @ob C02.V.advance.reports_bound
-        final(self).cached == 0, // @ob C10.V.cached_infoset.advance_resets_draw
-{
-        self.cached = 0;
-        params.regret_match(&mut *self.reg.cum_regret, &mut self.reg.strat);
-        params.discount_cum_regret(it, &mut *self.reg.cum_regret);
-        // NOTE since we alternate updates, when do the first discounting of player one's average
-        // strat, they'll actually have nothing acumulated, so we actualy want to update on the
-        // second round
-        params.discount_average_strat(if FIRST { it - 1 } else { it }, &mut self.reg.cum_strat);
-        params.cum_regret(it, &mut *self.reg.cum_regret)
-    }
+            let infoset = binfoset.borrow();
+            if let Some((ind, info)) = __abs_find_info(infos, infoset)
+            {
+                let info_ind = action_inds[ind];
+                __scan_entries_multi(actions, info, info_ind, dense)?;
+            } else if let Some((ind, (_, act))) = __abs_find_single(singles, infoset)
+            {
+                __scan_entries_single(actions, act, ind, seen_singles)?;
+            } else {
+                return Err(StratError::InvalidInfoset);
+            }
+        
+Ok(())
 }
 
 
